@@ -217,7 +217,7 @@ func vfTags(name string, max int) []Tag {
 func VF_C09_lists() {
 	var s [3]Service
 	which := vfChoice("attr", 3)
-	mx := vfBound("c09.list", 1, 2)
+	mx := vfBound("c09.list", 1, 3)
 	vfIsPolymorphic = which == 0
 	defer func() { vfIsPolymorphic = false }()
 	for i := range s {
